@@ -980,6 +980,11 @@ func endToEndCase(c chalCase, user, pw, domain, ws string, ownWriter bool, state
 	}
 	uni := c.spec.Flags&fUnicode != 0
 	ctx := spnego.NewAuthContext(spnego.AuthTypeNTLM, domain, user, pw, ws, uni)
+	if (len(raw)+len(user)+state)%2 == 1 {
+		// the context written out by the caller, field by field, instead of through the constructor
+		ctx = &spnego.AuthContext{Type: spnego.AuthTypeNTLM, Domain: domain, Username: user, Password: pw, Workstation: ws, UseUnicode: uni}
+		cs["context"] = "struct literal"
+	}
 	// first leg: the NEGOTIATE token of the same context
 	var neg []byte
 	var err error
@@ -1080,6 +1085,7 @@ func anchors() {
 	copy(h, nlmpSig)
 	binary.LittleEndian.PutUint32(h[8:], 3)
 	binary.LittleEndian.PutUint32(h[60:], fUnicode|fVersion|fNTLM)
+	copy(h[64:], []byte{10, 0, 0x63, 0x45, 0, 0, 0, 0x0F}) // VERSION: 10.0 build 17763, NTLMSSP_REVISION_W2K3
 	payload := []byte{}
 	put := func(at int, v []byte) {
 		binary.LittleEndian.PutUint16(h[at:], uint16(len(v)))
@@ -1101,6 +1107,11 @@ func anchors() {
 	binary.LittleEndian.PutUint32(bad[40:], 70) // UserName offset into the header
 	if _, ps := readMessage(bad, 3); len(ps) == 0 {
 		r.Inconclusive("own reader accepts an offset inside the header")
+	}
+	bad = append([]byte{}, msg...)
+	bad[71] = 0
+	if _, ps := readMessage(bad, 3); len(ps) == 0 {
+		r.Inconclusive("own reader accepts a VERSION whose revision is not 0x0F")
 	}
 	bad = append([]byte{}, msg...)
 	binary.LittleEndian.PutUint32(bad[32:], 72+2) // DomainName overlaps Workstation/UserName
